@@ -1,4 +1,5 @@
 import Hyeong.Props.C01
+#print axioms HyE.C01.meets_definition
 #print axioms HyE.C01.step_refines_spec
 #print axioms HyE.C01.run_refines_spec
 #print axioms HyE.C01.related_stacks_mean
